@@ -21,7 +21,11 @@ def main(jobs_file, out_file, scratch):
         for job in jobs:
             root = Path(scratch) / f"job-{job['id']}"
             try:
-                obs = impl_C14.run_job(job, root)
+                if job.get("kind") == "as_completed":
+                    obs = impl_C14.run_as_completed(job, root)
+                    obs["id"] = job["id"]
+                else:
+                    obs = impl_C14.run_job(job, root)
             except BaseException as ex:  # noqa
                 obs = {"id": job["id"], "ret": "harness-error", "machinery": True, "traceback": traceback.format_exc()[-2500:]}
             out.write(json.dumps(obs, default=repr) + "\n")
